@@ -22,6 +22,7 @@ import (
 type JSONMsg struct {
 	Question           []JSONQuestion `json:"Question"`
 	Answer             []JSONAnswer   `json:"Answer"`
+	Authority          []JSONAnswer   `json:"Authority,omitempty"`
 	Extra              []JSONAnswer   `json:"Extra"`
 	Truncated          bool           `json:"TC"`
 	RecursionDesired   bool           `json:"RD"`
@@ -66,6 +67,10 @@ func DNSMsgToJSONMsg(m *dns.Msg) (msg *JSONMsg) {
 
 	for _, rr := range m.Answer {
 		msg.Answer = append(msg.Answer, rrToJSON(rr))
+	}
+
+	for _, rr := range m.Ns {
+		msg.Authority = append(msg.Authority, rrToJSON(rr))
 	}
 
 	for _, rr := range m.Extra {
